@@ -9,7 +9,7 @@ import (
 
 type verifFn func(c *Ctx, fn *ssa.Function, args []Value) Value
 
-var verifAPI map[string]verifFn
+var verifAPI = map[string]verifFn{}
 
 func label(v Value) string {
 	if s, ok := v.(StringV); ok {
@@ -21,7 +21,7 @@ func label(v Value) string {
 }
 
 func init() {
-	verifAPI = map[string]verifFn{}
+
 	intFn := func(kind string, bitsN int) verifFn {
 		return func(c *Ctx, fn *ssa.Function, a []Value) Value {
 			return c.fresh(kind, bitsN, label(a[0]))
